@@ -612,6 +612,20 @@ def semHandle (st : DState) (ws : List String) : Option String :=
               go fuel rest (acc ++ t)
         some s!"{if stream.isEmpty then "-" else hexOf stream} {go (fs.length + 1) stream "ok"} end={stream.length}"
     | _, _ => some "bad-op"
+  | ["primkind", name] =>
+    -- parameters of the built-in codec the semantics uses for the type `name` (compared with the hand-written Rust by tools/manual_codecs.py)
+    let bl : Sem.BLeaf → String
+      | .u8 => "u8" | .u16 => "u16" | .u32 => "u32" | .pg => "pg" | .bool32 => "bool32" | .dt => "dt"
+    some (match Sem.primKind name with
+      | .mask w ls => s!"mask {w} {8 * w} {",".intercalate (ls.map bl)}"
+      | .gear => s!"mask 4 32 u32,mask:2:16:u16,{",".intercalate (Sem.gearTail.map bl)}"
+      | .namedGuid => "namedguid"
+      | .virp => "virp"
+      | .achDone => s!"sentinel {",".intercalate (Sem.achDoneFields.map bl)}"
+      | .achProg => s!"sentinel {",".intercalate (Sem.achProgFields.map bl)}"
+      | .splines => "splines"
+      | .updateMask => "updatemask"
+      | .other => "other")
   | ["progeq", kind, specKey, rustKey] =>
     -- C01 / C03 / C04 (code side): is the program translated from the generated Rust writer (`w`) / reader (`r`) the per-enumerator
     -- normal form of the program translated from the wowm definition (for readers: with the roles erased)?
